@@ -264,6 +264,7 @@ class Peer(_Endpoint):
         self.name = name
         self.ips = [ip]
         self.received = []  # (t, data, src, sock_label)
+        self.reactors = []  # callables(data, addr, sock) run on every received datagram
         self.socks = {}
         self.ctx = contextvars.Context()
         self.ctx.run(CUR_HOST.set, None)
@@ -279,6 +280,8 @@ class Peer(_Endpoint):
 
     def _on_datagram(self, data, addr, sock):
         self.received.append((self.world.loop.time(), data, addr, sock.label))
+        for fn in self.reactors:
+            fn(data, addr, sock)
 
     def send(self, data, dst=None, src_port=wire.MDNS_PORT):
         if src_port not in self.socks:
